@@ -312,7 +312,7 @@ def check(rep: Report, tier: str, seed: int) -> None:
     rep.extra["disagreements"] = bad
     rep.extra["seq_lines"] = len(l1)
     rep.extra["schedule_lines"] = len(l2)
-    if rep.broken and not rep.failing:
+    if rep.broken and not rep.unknown_failing():
         search(rep, seed, 2000 if tier == "quick" else 30000)
 
 
